@@ -250,6 +250,16 @@ def extract_range(ctx, F):
         ok_in = has_self and has_prev
     if not ok_in:
         problems.append('input shape is not {self.input_shape if start == 0, else the shape recorded with operator start-1}')
+    # `start - 1` (the entry before the range) is only computed for start > 0: with start == 0 the input shape is the architecture's own
+    for bb_, j_, st_ in b.stmts():
+        rv_ = st_.get('rv') or {}
+        if st_['k'] == 'assign' and rv_.get('k') == 'binop' and rv_['op'] in ('Sub', 'SubWithOverflow'):
+            l_, r_ = s(R.operand(rv_['l'], bb_, j_)), s(R.operand(rv_['r'], bb_, j_))
+            if l_ == ('param', 'start') and r_ == ('const', 1):
+                fs_ = [(op, s(x), s(y)) for op, x, y in prune.cmp_facts(literals(b, R, bb_))]
+                if not any((op in ('Ne', 'Gt') and x == ('param', 'start') and y == ('const', 0)) or (op == 'Ge' and x == ('param', 'start') and y == ('const', 1)) or
+                           (op == 'Lt' and x == ('const', 0) and y == ('param', 'start')) for op, x, y in fs_):
+                    problems.append('start - 1 is computed without knowing start > 0 (start == 0 must take the architecture\'s own input shape)')
     # which ranges are accepted: exactly the non-empty ones inside the queue, `start < end <= len` -- the range up to the last layer included
     # (every split point k gives extract_range(0, k) and extract_range(k, n))
     START, END, LEN = ('param', 'start'), ('param', 'end'), ('call', 'Vec::len', (('field', ('param', 'self'), 'operators'),))
